@@ -121,6 +121,18 @@ def gen_for(stream, seed):
         for ev in sc["events"]:
             if ev["type"] == "rebuild" and rng.random() < 0.5:
                 ev["rebuild_tau"] = rng.choice([1, 1, 2])
+        rebs_ = [ev for ev in sc["events"] if ev["type"] == "rebuild"]
+        if rebs_ and rng.random() < 0.4:
+            # negligible industrial damage next to a large household damage: the industrial ledger is settled within a
+            # few steps while households are still being served (rationed by their own demand)
+            regs, secs, cats = scen.labels(sc["table"])
+            ev0 = rebs_[0]
+            tot = sum(ev0["impact"].values())
+            f = rng.choice([1e-5, 1e-7])
+            ev0["impact"] = {k: v * f for k, v in ev0["impact"].items()}
+            ev0["house"] = {f"{rng.choice(regs)}|{rng.choice(cats)}": tot * rng.choice([0.3, 1.0])}
+            ev0["rebuild_tau"] = rng.choice([1, 2])
+            ev0["occ"], ev0["dur"] = min(ev0["occ"], 4), 1
         sc["stream"] = "rebuild"
         return sc
     if stream == "recover":
@@ -169,7 +181,39 @@ def gen_for(stream, seed):
                 ev["rebuild_tau"] = 1
             else:
                 ev["rebuild_tau"] = rng.choice([5, 30])
+        rebs = [ev for ev in evs if ev["type"] == "rebuild"]
+        if rebs and rng.random() < 0.5:
+            # household reconstruction much larger than the industrial one: the industrial ledger empties first
+            regs, secs, cats = scen.labels(sc["table"])
+            ev0 = rebs[0]
+            tot = sum(ev0["impact"].values())
+            ev0["house"] = {f"{regs[0]}|{cats[0]}": tot * rng.choice([1e3, 1e6])}
+            ev0["rebuild_tau"] = rng.choice([1, 2])
+        if len(rebs) >= 2 and rng.random() < 0.5:
+            # one shares Series (and a rebuilding factor below 1) used for every event
+            for ev in rebs:
+                ev["reb_sectors"] = dict(rebs[0]["reb_sectors"])
+                ev["shares_series"] = True
+                ev["factor"] = rebs[0]["factor"] if rebs[0]["factor"] != 1.0 else 0.5
         sc["stream"] = "finishing"
+        return sc
+    if stream == "sudden":
+        # psi x inventory duration well below 1 (the shortage regime starts only when an inventory is almost empty) and a
+        # supplier sector that loses (nearly) all its capacity everywhere at once: inventories run out within one step,
+        # without the model having entered the shortage regime first
+        sc = scen.gen_scenario(seed, "crash", nev=0, T=rng.choice([10, 14]))
+        cfg = sc["model"]
+        cfg["class"] = "psi"
+        cfg["psi"] = 0.05
+        cfg["main_inv_dur"] = 2 * cfg["dt"]
+        cfg["inventory_dict"] = None
+        cfg["inf_sect"] = None
+        cfg["restoration_tau"] = max(90, cfg["dt"])
+        regs, secs, cats = scen.labels(sc["table"])
+        ssec = rng.choice(secs)
+        sc["events"] = [{"type": "arbitrary", "occ": rng.randint(1, 3), "dur": rng.randint(3, 6), "name": None,
+                         "impact": {f"{r}|{ssec}": rng.choice([0.9, 0.95, 1.0]) for r in regs}, "recovery_tau": 5, "curve": "linear"}]
+        sc["stream"] = "sudden"
         return sc
     if stream == "earlydt":
         # step length > 1 and events that occur (and may even end) within the first step: the second step, at
